@@ -1,5 +1,7 @@
 #!/bin/sh
-# offline build of the whole Lean project (models, native driver, all property theorems)
+# offline build of the whole Lean project (translated parts, models, native driver, all theorems)
 set -e
-cd "$(dirname "$0")/lean"
+cd "$(dirname "$0")"
+python3 driver/regen.py
+cd lean
 lake build pvdriver PV 2>&1 | tail -5
